@@ -200,10 +200,19 @@ def db_scenarios(rng, k):
     out = [
         ([('set', 'a', 0)], [[('set', 'b', 1), ('get', 'a')], [('del', 'a'), ('in', 'b'), ('keys',)]]),
         ([('set', 'a', 0), ('set', 'b', 1)], [[('set', 'a', 2), ('keys',)], [('get', 'a'), ('del', 'b')], [('in', 'a')]]),
+        # lookups racing with a store / delete / re-store of the SAME key; the quiescent lookups afterwards must
+        # see the last stored value
+        ([('set', 'a', 0)], [[('get', 'a')], [('set', 'a', 1)]]),
+        ([('set', 'a', 0)], [[('get', 'a'), ('get', 'a')], [('set', 'a', 1), ('set', 'a', 2)]]),
+        ([('set', 'a', 0)], [[('get', 'a')], [('del', 'a'), ('set', 'a', 1)], [('get', 'a')]]),
+        ([('set', 'a', 0), ('set', 'b', 1)], [[('get', 'a'), ('get', 'b')], [('del', 'a')], [('set', 'b', 2)]]),
     ]
     names = ['a', 'b', 'c']
     while len(out) < k:
+        names = ['a', 'b', 'c']
         pre = [('set', rng.choice(names), rng.randrange(3)) for _ in range(rng.randrange(0, 3))]
+        if rng.random() < 0.5:
+            names = names[:1] + [names[0]] * 2 + names[1:2]        # concentrate on one key
         threads = []
         for _ in range(rng.choice([2, 2, 3])):
             ops = []
@@ -385,7 +394,7 @@ def explore_all(ctx, quick, deep):
     t0 = time.time()
     nruns = 0
     entries = C.make_entries(3)
-    for di, (pre, threads) in enumerate(db_scenarios(rng, 5 if quick else 10)):
+    for di, (pre, threads) in enumerate(db_scenarios(rng, 9 if quick else 16)):
         for pp, r in C.explore(lambda pp: C.run_db_schedule(entries, pre, threads, pp), len(threads), depth,
                                (150 if quick else 600) * (3 if deep else 1), rng, 6 if quick else 30):
             nruns += 1
